@@ -662,7 +662,37 @@ def check_ld_base_select(run, repo):
         run.violation('C15-B', fi.relpath, fn, 'TTBR0 / TTBR1 arms disagree',
                       'the two base-selection arms are not the same template under the renaming 0 <-> 1: `%s` vs `%s`' % (
                           diff[0][0].strip()[:80], diff[0][1].strip()[:80]))
-    run.instance('C15-B', 'long-descriptor TTBR0/TTBR1 base selection', obligations=3, ok=ok, sample={'function': fn})
+    # the TTBR1 selection predicate itself, as a boolean function of (T1SZ, base already found, input address):
+    #   (t1size == 0 && !basefound) || (t1size > 0 && IsOnes(inputaddr<31:(32-t1size)>))
+    from ..bitdom import State, Interp, Policy, Unsupported, sym_int
+    from ..bdd import BDD
+    B2 = BDD()
+    it2 = Interp(repo, B2, Policy())
+    it2.cur_func = fi
+    t1 = sym_int(B2, 't1_size', 3)
+    bf = B2.var('base_found')
+    ia = sym_int(B2, 'ia', 32)
+    st = State(1, {'t1_size': V(t1), 'base_found': V(Int([bf])), 'ia': V(ia)}, {})
+    try:
+        got = it2.truth(it2._eval(arms['1'].test, st), 1)
+    except Unsupported as u:
+        raise AnalysisError('TTBR1 selection test outside the bit-vector idiom: %s' % u)
+    want = B2.AND(it2.i_eq(t1, it2.const(0)), B2.NOT(bf))
+    for k in range(1, 8):
+        want = B2.OR(want, B2.AND(it2.i_eq(t1, it2.const(k)), B2.all_and(ia.bits[32 - k:32])))
+    d = B2.XOR(got, want)
+    if d != 0:
+        ok = False
+        a = B2.pick(d)
+        w = {}
+        for v_, b_ in a.items():
+            nm = B2.names[v_]
+            base = nm.split('[')[0]
+            w[base] = w.get(base, 0) | (b_ << int(nm[nm.index('[') + 1:-1])) if '[' in nm else b_
+        run.violation('C15-B', fi.relpath, fn, 'TTBR1 selection predicate',
+                      'TTBR1 must be selected exactly when (T1SZ == 0 and no TTBR0 match) or (T1SZ > 0 and the top T1SZ bits of the address are '
+                      'ones); the tree differs e.g. for %s' % {k_: (hex(v_) if k_ == 'ia' else v_) for k_, v_ in w.items()})
+    run.instance('C15-B', 'long-descriptor TTBR0/TTBR1 base selection', obligations=4, ok=ok, sample={'function': fn})
 
 
 def check_ld_hierarchical(run, repo):
